@@ -89,6 +89,21 @@ func Run(ctx *common.Ctx) int {
 			fast.MkTaskPrimed("C08", "c08", w, "all-pass", fast.SrcSpec{Kind: "uniform", Index2: -1, Size: "half"}, W, 0, 3, 1, pr[1], &tasks)
 		}
 	}
+	// streams that fail: same (false, error) as the sequential twin, in particular no crash when several workers
+	// meet errors (of different concrete types) after the first one
+	for wi := range wf.All {
+		w := &wf.All[wi]
+		if quick && w.Name == "Factory" {
+			continue
+		}
+		for _, W := range []int{2, 3} {
+			for _, sp := range []fast.SrcSpec{{Kind: "fault", Index: w.S / 2, Index2: -1, Err: "typedthen"}, {Kind: "fault", Index: w.S - 1, Index2: -1, Err: "eof", Sticky: true},
+				{Kind: "fault", Index: 0, Index2: -1, Err: "custom"}, {Kind: "fault", Index: 1, Index2: -1, Err: "shortthen"}} {
+				fast.MkTask("C08", "c08", w, "all-pass", sp, W, W-2, 0, 1, &tasks)
+				fast.MkTask("C08", "c08", w, "all-pass", sp, W, 0, 3, 1, &tasks)
+			}
+		}
+	}
 	// two consecutive calls on one source (two sets of samples, a stream that ends exactly after them with
 	// the final Read reporting EOF together with its bytes): the pair of results and the bytes consumed must
 	// equal the sequential twin's - a parallel variant that reads ahead or leaves bytes behind judges other
